@@ -23,7 +23,11 @@ THEOREMS = {
             "predictChunk_eq_clusterFold"],
     "C06": ["incremental_eq_batch", "spec_chunked", "rowsOf_append", "fitRec_append", "first_partial_is_fit", "neighbors_history",
             "post_eq_mapKV", "rec_stats_append", "rec_append_post", "fit_closed", "partialFit_closed", "fit_partialFit_append",
-            "chunked_eq_batch_full", "incremental_eq_batch_full"],
+            "chunked_eq_batch_full", "incremental_eq_batch_full",
+            "npBinarize_append", "radius_incremental_eq_batch", "knn_incremental_eq_batch", "radius_chunked_eq_batch",
+            "knn_chunked_eq_batch", "lshInv_fit_any", "lshInv_partialFit_any", "lshSame_buckets", "lshSame_selectIdx",
+            "lshSame_nhoodRow", "lshSame_impPredict", "lsh_incremental_eq_batch", "lsh_incremental_queries", "lsh_chunked_eq_batch",
+            "clusters_partialFit_is_fit", "clusters_incremental_eq_batch", "clusters_init_flags"],
     "C07": ["fit_discards", "resetFor_congr", "sameConfig_fresh", "fit_after_history_eq_fresh",
             "fit_then_predictExp_congr", "fit_norm_congr", "npBinarize_congr", "impFit_none_congr", "impFit_neighbors_congr",
             "impFit_lsh_congr", "impFit_tree_congr", "impFit_clusters_congr"],
@@ -83,7 +87,7 @@ IMPORTS = {
     "C03": ["MabModel.Props.C03"],
     "C04": ["MabModel.Props.C04"],
     "C05": ["MabModel.Props.C05", "MabModel.Props.C05b", "MabModel.Props.C05c", "MabModel.Props.C05d"],
-    "C06": ["MabModel.Props.C06", "MabModel.Props.C06b"],
+    "C06": ["MabModel.Props.C06", "MabModel.Props.C06b", "MabModel.Props.C06c"],
     "C07": ["MabModel.Props.C07", "MabModel.Props.C05c", "MabModel.Props.C07b"],
     "C08": ["MabModel.Props.C08", "MabModel.Props.C08b", "MabModel.Props.C08c"],
     "C09": ["MabModel.Props.C09"],
